@@ -290,10 +290,14 @@ func run(id, tier string) int {
 		seed = 1
 	}
 	os.MkdirAll(filepath.Join(root, ".build"), 0o755)
-	os.MkdirAll(filepath.Join(root, "evidence"), 0o755)
-	evPath := filepath.Join(root, "evidence", id+".json")
+	evDir, replayDir := filepath.Join(root, "evidence"), filepath.Join(root, "replay", id)
+	if r := os.Getenv("VERIF_REPO"); r != "" && r != "/repo" {
+		// mutation trial against another tree: keep its output away from the real evidence
+		evDir, replayDir = filepath.Join(root, ".build", "alt-evidence"), filepath.Join(root, ".build", "alt-replay", id)
+	}
+	os.MkdirAll(evDir, 0o755)
+	evPath := filepath.Join(evDir, id+".json")
 	os.Remove(evPath)
-	replayDir := filepath.Join(root, "replay", id)
 	os.MkdirAll(replayDir, 0o755)
 
 	scratch, err := os.MkdirTemp("/dev/shm", "verif-"+id+"-")
